@@ -190,8 +190,6 @@ def _(v):
     v.prove("substitution_changes_only_which_symbols_are_free", SP.conj([v.eq(e, spec_rhs(ds, [p3["kk0"], val], conc3)[s]) for e, s in zip(ode3.exprs, SUBST)]))
     out = v.run(get_odesys, rsys, substitutions={"nonexistent": 1.0}, SymbolicSys=FakeSymbolicSys)
     v.prove("unknown_substitution_refused", out.raised(ValueError))
-    rsys_t, _, _ = build(v, [(["A"], ["B"], [], [])], named=True)
-    rsys_t.substances["time"] = rsys_t.substances.pop("E") if False else rsys_t.substances["E"]
 
 
 @harness("C04", "get_odesys.cstr_and_invariants", functions=[ODE + ":get_odesys", "chempy.reactionsystem:ReactionSystem.composition_balance_vectors"], kind="shape-bounded", samples=0, max_paths=300)
@@ -206,7 +204,10 @@ def _(v):
     odesys, extra = v.call(get_odesys, rsys, cstr=True, SymbolicSys=FakeSymbolicSys)
     y = dict(zip(odesys.names, odesys.dep))
     p = dict(zip(odesys.param_names, odesys.params))
-    v.prove("feed_parameters", set(odesys.param_names) == {"feedratio", "fc_A", "fc_B", "fc_S"})
+    v.prove("feed_parameters", set(odesys.param_names) == {"feedratio", "fc_A", "fc_B", "fc_S"} and len(odesys.param_names) == 4)
+    # the ORDER of free parameter keys comes from a set in the code (hash dependent): what is fixed is that the names handed to the ODE system are the
+    # reported parameter keys followed by the registered unique keys, so that values given by name land on the right symbol
+    v.prove("parameter_names_are_the_reported_keys_then_unique_keys", list(odesys.param_names) == list(extra["param_keys"]) + [k for k in extra["unique"] if k not in extra["param_keys"]])
     rate = k * SP.spow(y["A"], a)
     v.prove("cstr_rhs", SP.conj([v.eq(odesys.exprs[0], -a * rate + p["feedratio"] * (p["fc_A"] - y["A"])),
                                  v.eq(odesys.exprs[1], b * rate + p["feedratio"] * (p["fc_B"] - y["B"])),
@@ -455,3 +456,86 @@ def _(v):
     o3, x3 = v.call(_create_odesys, rsys2, substance_symbols=ssyms, parameter_symbols=psyms, backend=FakeBackend(), SymbolicSys=CapturingSys, time_symbol=t)
     want3 = spec_rhs(ds2, [psyms["kk0"], psyms["renamed"]], ssyms)
     v.prove("alternative_builder_uses_the_new_name", SP.conj([v.eq(e, want3[s]) for e, s in zip(o3.exprs, SUBST)]))
+
+
+class ExpBackend(FakeBackend):
+    """odesys.be for rate expressions that need exp: the real function of assumed contract 5.3"""
+
+    @staticmethod
+    def exp(x):
+        from pyvc.stubs import sym_exp
+        return sym_exp(x)
+
+
+class ExpSys(FakeSymbolicSys):
+    def __init__(self):
+        super().__init__()
+
+    @classmethod
+    def from_callback(cls, cb, **kw):
+        self = super().from_callback(lambda t, y, p, be: cb(t, y, p, ExpBackend()), **kw)
+        self.be = ExpBackend()
+        return self
+
+
+@harness("C04", "get_odesys.active_substitution", functions=[ODE + ":get_odesys", ODE + ":get_odesys.<locals>.dydt", ODE + ":get_odesys.<locals>._reg_unique", "chempy.kinetics.rates:Arrhenius.__call__",
+                                                             "chempy.kinetics.rates:RampedTemp.__call__"], kind="shape-bounded", div_mode="assume", samples=0, max_paths=400)
+def _(v):
+    """a variable replaced by an EXPRESSION (temperature ramped linearly in time): parameters inlined -> no free symbol, the rate constant is
+    A*exp(-E/(T0 + r*t)); parameters kept free -> the expression's own arguments become parameters, and binding them reproduces the inlined rhs"""
+    from chempy.kinetics.ode import get_odesys
+    from chempy.kinetics.rates import MassAction, Arrhenius, RampedTemp
+    from chempy.chemistry import Reaction, Substance
+    from chempy.reactionsystem import ReactionSystem
+    from pyvc.stubs import sym_exp
+    A0, E, T0, r = v.real("A0", lo=0.1, hi=9), v.real("E", lo=1, hi=900), v.real("T0", lo=250, hi=350), v.real("r", lo=0.1, hi=2)
+    n = v.int("nu", lo=1, hi=3)
+    rsys = ReactionSystem([Reaction({"A": n}, {"B": 1}, MassAction(Arrhenius([A0, E], ("Aa", "Ea"))), checks=())], [Substance("B"), Substance("A")], checks=())
+    sub = {"temperature": RampedTemp([T0, r], ("T0", "dTdt"))}
+    o, x = v.call(get_odesys, rsys, include_params=True, substitutions=sub, SymbolicSys=ExpSys)
+    y = dict(zip(o.names, o.dep))
+    v.prove("inlined.no_free_parameters", list(o.param_names) == [])
+    v.assume(T0 + r * o.indep > 1)
+    k_t = A0 * sym_exp(-E / (T0 + r * o.indep))
+    v.prove("inlined.rhs", SP.conj([v.eq(o.exprs[0], k_t * SP.spow(y["A"], n)), v.eq(o.exprs[1], -n * k_t * SP.spow(y["A"], n))]))
+    o2, x2 = v.call(get_odesys, rsys, include_params=False, substitutions=sub, SymbolicSys=ExpSys)
+    y2 = dict(zip(o2.names, o2.dep))
+    p2 = dict(zip(o2.param_names, o2.params))
+    v.prove("free.parameters_are_the_arguments_of_both_expressions", set(o2.param_names) == {"T0", "dTdt", "Aa", "Ea"} and len(o2.param_names) == 4)
+    v.prove("free.registered_values", SP.conj([x2["unique"]["T0"] == T0, x2["unique"]["dTdt"] == r, x2["unique"]["Aa"] == A0, x2["unique"]["Ea"] == E]))
+    if set(o2.param_names) == {"T0", "dTdt", "Aa", "Ea"}:
+        v.assume(p2["T0"] + p2["dTdt"] * o2.indep > 1)
+        kf = p2["Aa"] * sym_exp(-p2["Ea"] / (p2["T0"] + p2["dTdt"] * o2.indep))
+        v.prove("free.rhs_in_the_free_symbols", SP.conj([v.eq(o2.exprs[0], kf * SP.spow(y2["A"], n)), v.eq(o2.exprs[1], -n * kf * SP.spow(y2["A"], n))]))
+
+
+@harness("C04", "get_odesys.unit_registry.second_order", functions=[ODE + ":get_odesys", ODE + ":get_odesys.<locals>.dydt", "chempy.util._expr:Expr.dedimensionalisation", "chempy.units:get_derived_unit"],
+         kind="shape-bounded", div_mode="assume", samples=0, max_paths=400)
+def _(v):
+    """with a unit registry and a second-order step the concentration unit of the registry enters: the numeric constant k [1/(conc*time)] becomes
+    k * si(ku) * si(registry conc) * si(registry time) in registry units (generic registry and generic unit of the constant)"""
+    from chempy.kinetics.ode import get_odesys
+    from chempy.kinetics.rates import MassAction
+    from chempy.chemistry import Reaction, Substance
+    from chempy.reactionsystem import ReactionSystem
+    from chempy import units as CU
+    from pyvc.qmodel import si_value, std_table, Quantity
+    from contracts.C10 import _registry, _unit_in_registry
+    t = std_table()
+    reg = _registry(v, t)
+    v.contract(CU.default_unit_in_registry, "default_unit_in_registry", None, lambda v_, value, registry: _unit_in_registry(t, registry, value) if isinstance(value, Quantity) else 1)
+    v.contract(CU.unitless_in_registry, "unitless_in_registry", None,
+               lambda v_, value, registry: v_.interp.call(CU.to_unitless, (value, _unit_in_registry(t, registry, value))) if isinstance(value, Quantity) else value)
+    ku2 = t.generic("ku2", (3, 0, -1, 0, 0, 0, -1))       # volume / (amount * time)
+    ku1 = t.generic("ku1", (0, 0, -1, 0, 0, 0, 0))
+    k2, k1 = v.real("k2", lo=1e-9, hi=1e9), v.real("k1", lo=1e-9, hi=1e9)
+    rsys = ReactionSystem([Reaction({"A": 1, "B": 1}, {"C": 1}, MassAction([k2 * ku2]), checks=()), Reaction({"C": 1}, {"A": 2}, MassAction([k1 * ku1]), checks=())],
+                          [Substance(s) for s in "CAB"], checks=())
+    odesys, extra = v.call(get_odesys, rsys, unit_registry=reg, SymbolicSys=FakeSymbolicSys)
+    y = dict(zip(odesys.names, odesys.dep))
+    reg_t, reg_c = si_value(reg["time"]), si_value(reg["amount"] / reg["length"] ** 3)
+    r2 = k2 * si_value(ku2) * reg_c * reg_t * y["A"] * y["B"]
+    r1 = k1 * si_value(ku1) * reg_t * y["C"]
+    v.prove("names", list(odesys.names) == ["C", "A", "B"] and list(odesys.param_names) == [])
+    for e, want, s in zip(odesys.exprs, (r2 - r1, -r2 + 2 * r1, -r2), "CAB"):
+        v.prove_identity("rhs_" + s, e, want)
